@@ -9,6 +9,7 @@ import (
 	"fmt"
 	"sort"
 	"strings"
+	"time"
 
 	"go.amzn.com/verifh/hx"
 	"go.amzn.com/verifh/stack"
@@ -21,6 +22,7 @@ type extCfg struct {
 	events []string
 	isDir  bool
 	stall  string // "" | before-register | before-next
+	slowMs int    // held back this long (virtual time) before its first next
 }
 
 type scen struct {
@@ -28,6 +30,7 @@ type scen struct {
 	internals [][]string // event lists of internal extensions (registered by the runtime process before its first next)
 	rtStall   bool       // runtime never polls
 	late      bool       // the runtime tries to register one more extension after its first delivery
+	racingInt int        // an internal extension on a thread of its own registers once the runtime has issued its first next (racing with the closing of registration) and, if accepted, polls after this many ms
 	bound     int
 }
 
@@ -41,11 +44,17 @@ func (s scen) name() string {
 		if e.stall != "" {
 			k += ":stall-" + e.stall
 		}
+		if e.slowMs > 0 {
+			k += fmt.Sprintf(":held-%dms", e.slowMs)
+		}
 		p = append(p, k)
 	}
 	var in []string
 	for _, ev := range s.internals {
 		in = append(in, "int:"+strings.Join(ev, "+"))
+	}
+	if s.racingInt > 0 {
+		in = append(in, fmt.Sprintf("int-racing-with-runtime-next(polls after %d ms)", s.racingInt))
 	}
 	return fmt.Sprintf("ext=[%s] %s rtStall=%v late=%v B=%d", strings.Join(p, ","), strings.Join(in, ","), s.rtStall, s.late, s.bound)
 }
@@ -67,6 +76,9 @@ func (s scen) config(r **rec) *stack.Config {
 			}
 			if e.stall == "before-next" {
 				x.Stall()
+			}
+			if e.slowMs > 0 {
+				x.Sleep(time.Duration(e.slowMs) * time.Millisecond)
 			}
 			for {
 				ev := x.ExtNext()
@@ -95,6 +107,27 @@ func (s scen) config(r **rec) *stack.Config {
 					}
 				})
 			}
+		}
+		if s.racingInt > 0 {
+			rt.Internal("racing", func(x *stack.Actor) {
+				sched.Block("await-runtime-next-issued", nil, func() bool {
+					for _, c := range rt.W.Calls {
+						if c.Actor == "runtime" && c.Gen == rt.Gen && c.Kind == "next" {
+							return true
+						}
+					}
+					return false
+				})
+				if c := x.Register([]string{"INVOKE"}, ""); c.Status != 200 {
+					return // refused: registration was closed already
+				}
+				x.Sleep(time.Duration(s.racingInt) * time.Millisecond)
+				for {
+					if c := x.ExtNext(); c.Status != 200 {
+						return
+					}
+				}
+			})
 		}
 		first := true
 		for {
@@ -345,6 +378,11 @@ func init() {
 		ss = append(ss, scen{exts: []extCfg{{name: "adir", isDir: true}, {name: "zfile", events: []string{"INVOKE"}}}, bound: b})
 		ss = append(ss, scen{exts: []extCfg{{name: "only-dir", isDir: true}}, bound: b})
 		ss = append(ss, scen{internals: [][]string{{"INVOKE"}, {}}, bound: b})
+		// an internal extension registering while registration is being closed (the runtime has just asked for its
+		// first event, an external extension is still held back): accepted or refused, but if accepted it is waited for
+		ss = append(ss, scen{exts: []extCfg{{name: "x", events: []string{"INVOKE"}, slowMs: 100}}, racingInt: 200, bound: b})
+		ss = append(ss, scen{exts: []extCfg{{name: "x", events: []string{}, slowMs: 100}}, racingInt: 200, bound: b})
+		ss = append(ss, scen{exts: []extCfg{{name: "x", events: []string{"INVOKE"}, slowMs: 200}}, racingInt: 100, bound: b})
 		// late registration
 		ss = append(ss, scen{late: true, bound: b})
 		ss = append(ss, scen{exts: []extCfg{{name: "x", events: []string{"INVOKE"}}}, late: true, bound: b})
